@@ -156,6 +156,9 @@ func refNot(a tv) tv {
 }
 
 // obs3 classifies a result as a three-valued outcome.
+// sub-spaces registered by other files of the package (c06trees.go)
+var c06ExtraSubs []core.Sub
+
 func obs3(r lib.Res) string {
 	if r.Panic != nil {
 		return "panic"
@@ -194,7 +197,7 @@ func init() {
 		Rule:        "complete enumeration: every operator x every ordered pair of 34 operand forms (value class x source), not() on every form, every form as where/exists/all/iif criterion and as EvaluateAsBool result, the algebraic laws on every pair, and one compiled expression per operator evaluated under every sequence of two environment bindings (rebinding); a case is non-trivial when the implementation produced a result or error that was compared against the truth table (hash of case id + outcome)",
 		Assumptions: []string{"the operand forms' own meanings (e.g. Patient.active is true on the fixture) are established by navigation, which C02 checks", "nil options / typed-nil elements are outside the domain"},
 		Subs: func(tier string) []core.Sub {
-			return []core.Sub{
+			return append(c06ExtraSubs, []core.Sub{
 				{Name: "binary", N: len(ops) * len(forms), Note: "4 operators x 34 left forms; inner loop 34 right forms", Run: func(i int, r *core.Rec) {
 					op, a := ops[i/len(forms)], forms[i%len(forms)]
 					for _, b := range forms {
@@ -543,7 +546,7 @@ func init() {
 						}
 					}
 				}},
-			}
+			}...)
 		},
 	})
 }
